@@ -36,6 +36,12 @@ func c01Send(c *sendCtx) {
 		if c.res.RandSt.fired {
 			return // the injected failure fired (and no retry was asked for): an error is the right answer
 		}
+		if c.sa != nil && s.Msg.innerSize() > maxInnerProtected(c.sa.Suite.refInteg().ICVLen)-256 {
+			// C01's domain is "messages whose protected form still fits the 16-bit payload length"; padding may
+			// legally be any amount up to 255 octets (C10), so within 256 octets of the limit a refusal is not a violation
+			w.stats.inc("c01_refused_within_padding_slack_of_limit")
+			return
+		}
 		w.violate("send_error", errKey(c.res.Err), "EncodeEncrypt refused a message of the encodable domain: %v (msg %s)", c.res.Err, jsonOf(s.Msg))
 		return
 	}
